@@ -260,3 +260,12 @@ def r4(ctx: Ctx) -> None:
              (("ret", ("ite", mk_lt(H, W), sh, sv)),), (("if", mk_lt(H, W), (("ret", sh),), (("ret", sv),)),)]
     if cs not in forms:
         ctx.report(fs.where, "split-dispatch " + "; ".join(show(x) for x in cs), "split() does not halve the longer side", lineno=fs.node.lineno)
+
+
+
+@rule("C12", "R7.geometry-primitives", "SHARED(C18)",
+      'the cuts and the cuttable tests are exact: Rectangle.split* / x_cuttable / y_cuttable / duplicate satisfy the C18 rules (tiling laws, x/y mirror symmetry of the two cuttable tests, border refusal, sliver test against ratio * the other side) -- evaluated for the helpers refinement calls', floor=10)
+def shared_geometry(ctx: Ctx) -> None:
+    from . import C18 as _c18
+    from .common import support
+    support(ctx, [_c18.r1, _c18.r4, _c18.r5, _c18.r6], {"Rectangle.split", "Rectangle.split_horizontal", "Rectangle.split_vertical", "Rectangle.duplicate", "Rectangle.x_cuttable", "Rectangle.y_cuttable", "Rectangle.overlap", "Rectangle.area_overlap"})
